@@ -38,6 +38,9 @@ Detail(n) ==
   CASE n = "C03_TunnelSurvives" -> IF tun.marshalFail THEN "unencodable-metadata" ELSE ""
     [] n = "C02_EncodableMetadata" -> "non-utf8-binary-value"
     [] n = "C10_GracefulStopReturns" -> IF q.nsrv > 0 /\ q.stab = 0 THEN "idle-tunnel" ELSE ""
+    \* Err() read at the very moment Done() fired, before the channel had recorded how it ended
+    [] n = "C04_ErrNilIffClean" -> IF tun.chEarly /\ tun.chErr = "err" /\ tun.firstCause \in {"close", "stop"}
+                                   THEN "err-read-before-close-recorded" ELSE ""
     [] OTHER -> ""
 
 \* record the first position per trace and formula
